@@ -26,6 +26,7 @@ ASSUMPTIONS = [
     "reference = protobuf 7.x well-known-type mixins on classes from a private pool",
 ]
 FLOORS = {"quick": {"values": 40000}, "thorough": {"values": 2000000}}
+ANCHORS = ['_Timestamp.from_datetime', '_Timestamp.to_datetime', '_Duration.from_timedelta', '_Duration.to_timedelta', '_Timestamp.timestamp_to_json', '_Duration.delta_to_json']
 CONTRACTS = ["time", "bytes"]
 EPOCH = datetime(1970, 1, 1, tzinfo=timezone.utc)
 DUR_RE = re.compile(r"^-?\d+(\.\d{3}|\.\d{6}|\.\d{9})?s$")
